@@ -32,8 +32,8 @@ structure St where
   wasRange : Bool
 deriving Repr, DecidableEq
 
-/-- one iteration of `for i, r := range chars`; `last` = (i == len(chars)-1); `esc` = the rune was written as an escape
-    sequence (an escaped `-` is a character, never the range operator: repair of finding D3) -/
+/-- one iteration of `for i, r := range chars`; `last` = (i == len(chars)-1); `esc` = the rune cannot be the range
+    operator: it was written as an escape sequence (repair of finding D3) or stands next to a Unicode class (D36) -/
 def step (s : St) (r : Rune) (esc : Bool) (last : Bool) : St :=
   if s.inRange then { s with ranges := s.ranges ++ [r], inRange := false, wasRange := true }
   else if r = dash && !esc && !s.wasRange && !s.chars.isEmpty && !last then
@@ -119,10 +119,19 @@ def readName : Nat → List Nat → List Rune → List Rune × List Nat
     if r = 125 then (acc, bs') else readName f bs' (acc ++ [r])
 
 structure Dec where
-  /-- decoded runes, each with the mark "came from an escape sequence" -/
+  /-- decoded runes, each with the mark "cannot be the range operator": it came from an escape sequence (repair of D3) or
+      stands next to a Unicode class escape (repair of D36: a class is no range bound) -/
   chars : List (Rune × Bool)
   classes : List (List Rune)
+  /-- `afterClass`: the previous item was a Unicode class escape -/
+  pend : Bool := false
 deriving Repr, DecidableEq
+
+/-- `escaped[len(escaped)-1] = true` (nothing when the list is empty) -/
+def markLast : List (Rune × Bool) → List (Rune × Bool)
+  | [] => []
+  | [x] => [(x.1, true)]
+  | x :: y :: rest => x :: markLast (y :: rest)
 
 /-- the `outer` loop; `fuel` ≥ number of bytes left -/
 def decode : Nat → List Nat → Dec → Dec
@@ -130,23 +139,23 @@ def decode : Nat → List Nat → Dec → Dec
   | _ + 1, [], d => d
   | f + 1, bs, d =>
     let (rn, bs1) := readRune bs
-    if rn ≠ 92 then decode f bs1 { d with chars := d.chars ++ [(rn, false)] }
+    if rn ≠ 92 then decode f bs1 { d with chars := d.chars ++ [(rn, d.pend)], pend := false }
     else
       let (e, bs2) := readRune bs1
-      if e = 93 then decode f bs2 { d with chars := d.chars ++ [(93, true)] }
+      if e = 93 then decode f bs2 { d with chars := d.chars ++ [(93, true)], pend := false }
       else if e = 112 then
         let (n, bs3) := readRune bs2
         if n = 123 then
           let (name, bs4) := readName bs3.length bs3 []
-          decode f bs4 { d with classes := d.classes ++ [name] }
+          decode f bs4 { chars := markLast d.chars, classes := d.classes ++ [name], pend := true }
         else
           -- `string(rn)`: an invalid code point would become U+FFFD; ReadRune never yields one
-          decode f bs3 { d with classes := d.classes ++ [[n]] }
+          decode f bs3 { chars := markLast d.chars, classes := d.classes ++ [[n]], pend := true }
       else
         let consumeN := if e = 120 then 2 else if e = 117 then 4 else if e = 85 then 8
                         else if 48 ≤ e && e ≤ 55 then 2 else 0
         let (buf, bs3) := readN consumeN bs2 (encodeRune e)
-        decode f bs3 { d with chars := d.chars ++ [(unquote buf, true)] }
+        decode f bs3 { d with chars := d.chars ++ [(unquote buf, true)], pend := false }
 
 /-! ### phase 1 and the whole function -/
 
